@@ -1,6 +1,7 @@
 """C03 — sniproxy RPC: every call gets its own reply, at most once (DESIGN.md §7 C03)."""
 import json
 
+import rpc_common
 import vlib
 from vlib import coq_str
 
@@ -179,7 +180,7 @@ def impl_oracle(c):
 
 
 def run(ck):
-    n = 260 if not ck.thorough else 4000
+    n = 600 if not ck.thorough else 5000
     ck.gen()
     built = ck.coq_make(MODEL + PROOFS, clean=ck.thorough)
     ck.obligations = ck.count_statements(STATEMENT_FILES)
@@ -191,7 +192,11 @@ def run(ck):
 
     binp = ck.build_harness("c03")
     cases = []
-    if binp:
+    replayed = rpc_common.replay_case(ck)
+    if binp and replayed is not None:
+        cases = rpc_common.run_script(ck, binp, [replayed])
+        ck.log("replaying %s: %d case(s)" % (ck.replay, len(cases)))
+    elif binp:
         rc, out, err = vlib.sh2([binp, "-seed", str(ck.seed), "-n", str(n)], timeout=3000)
         if rc != 0:
             ck.broken.append({"what": "harness run failed", "detail": err[-1500:]})
@@ -211,6 +216,7 @@ def run(ck):
                              {"stderr": err[-3000:]})
 
     kinds = {}
+    shrunk = set()
     for c in cases:
         nframes = len(c.get("frames", []))
         trivial = len(c.get("callers", [])) <= 1 and nframes <= 1
@@ -219,10 +225,15 @@ def run(ck):
         for f in c.get("frames", []):
             kinds[f["kind"]] = kinds.get(f["kind"], 0) + 1
         for key, why in impl_oracle(c):
+            small = c
+            if binp and replayed is None and key not in shrunk and len(shrunk) < 3:
+                shrunk.add(key)
+                small = rpc_common.shrink(ck, binp, c, key, impl_oracle)
             ck.violation("impl:%s" % key, why,
-                         {"case": c, "expected": "each call completes at most once with the reply sent for it; "
-                                                 "malformed frames touch no other call",
-                          "observed": c["callers"]})
+                         {"case": small, "original_case": c if small is not c else None,
+                          "expected": "each call completes at most once with the reply sent for it; "
+                                      "malformed frames touch no other call",
+                          "observed": small["callers"]})
     ck.coverage["frame_kinds"] = kinds
     ck.coverage["callers_total"] = sum(len(c.get("callers", [])) for c in cases)
     for c in cases[:1] + cases[4:6]:
@@ -231,27 +242,33 @@ def run(ck):
 
     model_ok = all(built.get(x) for x in MODEL)
     if cases and model_ok:
-        shard = 400
+        from concurrent.futures import ThreadPoolExecutor
+        shard = 60 if not ck.thorough else 250
         mism = []
-        for s in range(0, len(cases), shard):
-            part = cases[s:s + shard]
+        hist = ck.coverage.setdefault("model_completions", {})
+        names = {0: "ok", 11: "alreadyshutdown", 12: "send-failed", 13: "eof", 14: "toolong", 15: "lenoverflow"}
+
+        def eval_shard(s0):
+            part = cases[s0:s0 + shard]
             txt = ("From Coq Require Import List NArith ZArith String.\n"
                    "From Verif Require Import Lib.Bytes Sni.Wire Sni.WireCorr Sni.Rpc Sni.RpcCorr.\n"
                    "Import ListNotations.\nLocal Open Scope N_scope.\nLocal Open Scope string_scope.\n"
                    "Definition cases : list ccase := [\n  "
                    + ";\n  ".join(to_coq(c) for c in part) + "\n].\n"
-                   "Definition M := Eval vm_compute in mismatches cases.\nPrint M.\n"
-                   "Definition T := Eval vm_compute in flat_map case_tags cases.\nPrint T.\n")
-            rc, out = ck.coq_eval("cases_%d" % (s // shard), txt)
+                   "Definition R := Eval vm_compute in eval_all cases.\n"
+                   "Definition M := Eval vm_compute in fst R.\nPrint M.\n"
+                   "Definition T := Eval vm_compute in snd R.\nPrint T.\n")
+            return s0, ck.coq_eval("cases_%d" % (s0 // shard), txt)
+
+        with ThreadPoolExecutor(max_workers=6) as ex:
+            results = list(ex.map(eval_shard, range(0, len(cases), shard)))
+        for s0, (rc, out) in results:
             got = vlib.parse_coq_list_of_nat(out, "M") if rc == 0 else None
             if got is None:
                 ck.broken.append({"what": "correspondence evaluation failed", "detail": out[-1500:]})
                 break
-            mism += [s + i for i in got]
-            tags = vlib.parse_coq_list_of_nat(out, "T") or []
-            hist = ck.coverage.setdefault("model_completions", {})
-            names = {0: "ok", 11: "alreadyshutdown", 12: "send-failed", 13: "eof", 14: "toolong", 15: "lenoverflow"}
-            for t in tags:
+            mism += [s0 + i for i in got]
+            for t in vlib.parse_coq_list_of_nat(out, "T") or []:
                 nm = names.get(t, str(t))
                 hist[nm] = hist.get(nm, 0) + 1
         ck.coverage["correspondence_cases"] = len(cases)
